@@ -114,6 +114,7 @@ impl<'a> P<'a> {
                     self.i += 1;
                     let lo = match c {
                         b']' if !first => break,
+                        c if c >= 0x80 => return Err("non-ASCII character in a class (outside the subset)".into()),
                         b'\\' => self.escape()?,
                         c => c,
                     };
@@ -132,6 +133,13 @@ impl<'a> P<'a> {
             }
             b'\\' => Ok(Node::Byte(self.escape()?)),
             b'?' | b'*' | b'+' | b')' | b'|' | b'{' | b'}' => Err("unexpected metacharacter".into()),
+            // a non-ASCII character of the pattern text is one atom denoting its UTF-8 bytes
+            c if c >= 0x80 => {
+                let len = if c >= 0xf0 { 4 } else if c >= 0xe0 { 3 } else { 2 };
+                let bytes = self.s.get(self.i - 1..self.i - 1 + len).ok_or("truncated character")?;
+                self.i += len - 1;
+                Ok(Node::Group(Box::new(Node::Cat(bytes.iter().map(|b| Node::Byte(*b)).collect()))))
+            }
             c => Ok(Node::Byte(c)),
         }
     }
